@@ -43,6 +43,9 @@ ASSUMPTIONS = [
     'exception escape (a raising connection-level callback aborts connectionLost: see '
     'outside_scope_observation_raising_callback in the evidence).  Callbacks on the Deferreds of calls stay passive '
     '(an errback that issues a call from inside the loop over _pendingCalls: see C08)',
+    'a callback may also obtain a new explicit-interface proxy from the dying connection and register a callback on it; '
+    'the harness keeps a strong reference to it.  A callback that drops the last reference to a sibling proxy (weakref '
+    'liveness) is not examined: the harness holds every proxy',
     'no proxy-level callback registers or cancels a callback on a DIFFERENT proxy (the code visits the proxies in the '
     'iteration order of a WeakSet and copies each list when it gets there, so the result would depend on that order; '
     'the model takes every list when the proxy phase starts); no callback registers itself, directly or through '
@@ -249,6 +252,17 @@ class Driver:
                                    'interface': 'org.freedesktop.DBus', 'destination': 'org.freedesktop.DBus',
                                    'signature': 's', 'body': ['org.x.Mine']}, a[1])
             self.issued_in_loss.append(cid)
+            return
+        if a[0] == 3:
+            # obtain another proxy from the dying connection (explicit interfaces: it exists at once); keep it alive
+            q = self.nreq
+            self.nreq += 1
+            key = a[1]
+            d = self.conn.getRemoteObject('org.x.Svc%d' % (key % 2), '/o/k%d' % key, self.im.iface)
+            d.addCallbacks(self._got_proxy, self._no_proxy, callbackArgs=(q,), errbackArgs=(q,))
+            if a[2] and q in self.proxies:
+                self.proxies[q].notifyOnDisconnect(self.cb(a[2][0]))
+                self.regs.append(((q,), a[2][0]))
             return
         owner, n = a[1], a[2]
         target = self.proxies.get(owner[0]) if owner else self.conn
@@ -469,6 +483,8 @@ class Driver:
             self.lost = True
             self.srv = 'closed'
             self.regs_at_loss = list(self.regs)
+            self.proxies_at_loss = set(self.proxies)
+            self.nreq_at_loss = self.nreq
             self.issued_at_loss = self.next_id
             self.in_loss = True
             try:
@@ -560,9 +576,17 @@ def expected_books(drv):
     at_loss = drv.regs_at_loss
     conn = [k for k in at_loss if not k[0]]
     prox = [k for k in at_loss if k[0]]
+    exist = set(drv.proxies_at_loss)
+    nreq = drv.nreq_at_loss
     for (_, n) in conn:
         for a in drv.acts.get(n, ()):
-            if a[0] in (1, 2) and a[1] and a[1][0] in drv.proxies:
+            if a[0] == 3:
+                # a proxy created by a connection-level callback is there before the proxies are told
+                exist.add(nreq)
+                if a[2]:
+                    prox.append(((nreq,), a[2][0]))
+                nreq += 1
+            elif a[0] in (1, 2) and a[1] and a[1][0] in exist:
                 key = (tuple(a[1]), a[2])
                 if a[0] == 1:
                     prox.append(key)
@@ -721,7 +745,7 @@ def evaluate(ctx, cases, res):
                     if not c08.same_completions(ist[1], sorted(fails, key=lambda x: x[0])):
                         res.violate(c, 'at the loss the outstanding calls must each fail once with the reason: '
                                        'expected %r, got %r' % (fails, ist[1]), 'loss-calls-not-failed-once')
-                    if ist[5] != sorted(objfails):
+                    if [x for x in ist[5] if not x[1]] != sorted(objfails):
                         res.violate(c, 'at the loss every pending getRemoteObject must fail: expected %r, got %r'
                                     % (objfails, ist[5]), 'loss-calls-not-failed-once')
                     cancelled_serials = [drv.serial_of[i] for i in drv.cancelled]
@@ -935,9 +959,11 @@ class Gen:
     #    another proxy: see ASSUMPTIONS); 7, 8 (connection), 21 (proxy 0), 22 (proxy 1) and everything registered by
     #    an action are passive.  No callback registers itself or its registrar (the unrepaired loop would not return).
     CONN_ACTIONS = [[0, [5]], [0, []], [0, [0]], [1, [], 60], [1, [], 7], [2, [], 7], [2, [], 8], [2, [], 40], [2, [], 41],
-                    [2, [], 99], [1, [0], 61], [1, [1], 61], [2, [0], 21], [2, [1], 22], [2, [0], 50], [1, [5], 61]]
-    P0_ACTIONS = [[0, [5]], [0, []], [1, [], 62], [2, [], 7], [2, [0], 50], [2, [0], 21], [1, [0], 63], [2, [0], 98]]
-    P1_ACTIONS = [[0, [3]], [0, []], [1, [], 64], [2, [1], 51], [2, [1], 22], [1, [1], 65]]
+                    [2, [], 99], [1, [0], 61], [1, [1], 61], [2, [0], 21], [2, [1], 22], [2, [0], 50], [1, [5], 61],
+                    [3, 4, []], [3, 5, [66]], [1, [2], 67]]
+    P0_ACTIONS = [[0, [5]], [0, []], [1, [], 62], [2, [], 7], [2, [0], 50], [2, [0], 21], [1, [0], 63], [2, [0], 98],
+                  [3, 6, []], [3, 7, [68]]]
+    P1_ACTIONS = [[0, [3]], [0, []], [1, [], 64], [2, [1], 51], [2, [1], 22], [1, [1], 65], [3, 8, [69]]]
 
     def reentrant_case(self, k, deadlines, conn_regs, acts, post_extra=()):
         rng = self.rng
@@ -972,6 +998,12 @@ class Gen:
             for post in ((), (call(4), [6, [], 70], lost(3))):
                 yield self.reentrant_case(1, [1], order, {40: [[0, [5]]], 41: [[0, []], [0, [9]]],
                                                           50: [[0, [7]]], 51: [[0, []]]}, post)
+        # proxies created while the loss is handled: by a proxy-level callback (the other proxy must still be told, the
+        # pending calls failed), by a connection-level callback (the new proxy is told too), by both
+        for acts in ({50: [[3, 6, [68]]]}, {51: [[3, 8, []]]}, {40: [[3, 5, [66]]]},
+                     {40: [[3, 5, [66]], [1, [2], 67], [0, [5]]], 50: [[3, 6, [68]], [0, []]], 51: [[3, 8, [69]]]}):
+            for k in (0, 1, 2):
+                yield self.reentrant_case(k, [1, 0][:k], [7, 40], acts, ([6, [2], 75], [5, 0, 3], lost(3)))
         # two acting callbacks, random action lists
         for _ in range(self.ctx.n(600, 12000)):
             acts = {}
@@ -1169,8 +1201,9 @@ def run(ctx, res):
                 'pending on the other, expiries, the loss of either, then the genuine replies; '
                 '(K) the caller cancels the Deferred of a call: 1-2 calls with and without deadline, optionally a reply / '
                 'error reply / expiry, the cancellation at every later position (also repeated, and of Deferreds that do '
-                'not exist), the loss at every position after it; (R) acting disconnect callbacks: each of 16 connection-level actions (call with/without '
-                'deadline, register/cancel on the connection or a proxy, cancel itself / a later / an absent callback) x 3 '
+                'not exist), the loss at every position after it; (R) acting disconnect callbacks: each of 19 connection-level actions (call with/without '
+                'deadline, register/cancel on the connection or a proxy, create a proxy with or without a callback on it, cancel itself / a '
+                'later / an absent callback) x 3 '
                 'positions of the acting callback x 0-2 calls in flight, the same for callbacks on either proxy, the '
                 'shape "every acting callback issues calls", and random programs for 1-4 acting callbacks; virtual time '
                 'is advanced past every timeout at the end of every case; '
